@@ -7,6 +7,7 @@ import ErrModel.ProtoFull
 import ErrModel.ProtoHop
 import ErrModel.ProtoNest
 import ErrModel.ProtoHopAll
+import ErrModel.ProtoHid
 /-
   C01 — Error text and cause-tree structure survive network transfer.
 
@@ -210,5 +211,14 @@ theorem C01_hop_through_bytes (P Q : Proc) (vf : Err → Str) (tag : Nat) (e : E
     (hn : Proto.oneHid (encode P vf e) = true) (hs : Proto.SmallG (Proto.fullG (encode P vf e))) :
     (Proto.throughBytesG (encode P vf e)).bind (decode Q [tag]) = hop P Q vf tag e :=
   Proto.hop_through_bytes_all P Q vf tag e hn hs
+
+
+/-- `oneHid` holds of everything EncodeError produces from locally built layers (and from received
+    opaque layers that satisfy it): the hypothesis of the previous theorem is about opaque stand-ins
+    only (`hidOK`) -/
+theorem C01_hop_through_bytes_built (P Q : Proc) (vf : Err → Str) (tag : Nat) (e : Err)
+    (hk : Proto.hidOK e = true) (hs : Proto.SmallG (Proto.fullG (encode P vf e))) :
+    (Proto.throughBytesG (encode P vf e)).bind (decode Q [tag]) = hop P Q vf tag e :=
+  Proto.hop_through_bytes_all P Q vf tag e (Proto.oneHid_encode P vf e hk) hs
 
 end ErrModel
